@@ -93,6 +93,9 @@ def cross_process(h: Harness):
     for a, r in (("rs", "tree"), ("gp", "ge"), ("gp", "tree")):
         configs.append([a, r, "wstrings", 6, {"gp": 30}.get(a, 12)])
     configs.append(["gpmo", "tree", "plain", 9, 30])
+    # the same refined type written in several fields (several refinement objects that print alike), mapped by the stack representation
+    for a in ("rs", "gp", "hc"):
+        configs.append([a, "stack", "twins", 11, {"gp": 30}.get(a, 12)])
     configs.append(["gpmo", "ge", "full", 9, 30])
     envs = [{"PYTHONHASHSEED": "0", "C08_PAD": "0", "C08_IMPORT_ORDER": "a"},
             {"PYTHONHASHSEED": "1", "C08_PAD": "1000", "C08_IMPORT_ORDER": "b", "C08_HOLES": "1"},
@@ -138,8 +141,17 @@ def in_process(h: Harness):
     import linear
     from linear import DSGE, GE, SGE, Stack, safe
     rng = h.rng
-    for gi in range(h.n(25, 300)):
-        spec = gram.productive_spec(rng, max_classes=rng.choice([3, 4, 6]), opts={"float": False})
+    C = gram.ClassSpec
+    # fixed witnesses: the SAME refined type written in two fields -- two refinement objects, two symbols, one printed form
+    twin = ("ann", "str", ("varRange", ["z", "y"]))
+    twins = [gram.Spec([C("A0", True, None), C("A1", True, 0), C("C2", False, 0, [("f0", "bool"), ("f1", twin)]),
+                        C("C3", False, 1, [("f0", twin), ("f1", ("ann", "int", ("intRange", -1, 0)))]), C("R4", False, 0, [("e", ("cls", 1)), ("k", "int")])],
+                       0, [0, 2, 1, 3, 4]),
+             gram.Spec([C("A0", True, None), C("Lit", False, 0, [("a", ("ann", "int", ("intRange", 0, 9))), ("b", ("ann", "int", ("intRange", 0, 9)))]),
+                        C("Add", False, 0, [("l", ("cls", 0)), ("r", ("cls", 0)), ("w", ("ann", "int", ("intRange", 0, 9)))])], 0, [1, 2])]
+    n_random = h.n(25, 300)
+    for gi in range(n_random + 6 * len(twins)):
+        spec = gram.productive_spec(rng, max_classes=rng.choice([3, 4, 6]), opts={"float": False}) if gi < n_random else twins[(gi - n_random) % len(twins)]
         b = gram.build(spec)
         try:
             g = b.extract()
